@@ -217,6 +217,57 @@ class BNRemoveNodeChecked(BNRemoveNode):
 register(BNRemoveNodeChecked())
 
 
+class BNRemoveNodesFrom(Contract):
+    """graph part of BayesianNetwork.remove_nodes_from, for pairwise distinct nodes of the model (a set, or a list without repetition):
+    exactly the listed nodes, their incident edges and their latent flags disappear, nothing else changes, the representation
+    invariant is kept.  (A repeated or unknown node ends in the ValueError of get_cpds, whose body is not modelled: excluded by the
+    precondition, decided by the bounded group history_BN.)"""
+    file = "pgmpy/models/BayesianNetwork.py"
+    qual = "BayesianNetwork.remove_nodes_from"
+
+    def variants(self, ex):
+        for kind in ("set", "list"):
+            g = new_bn()
+            g.fields["__opaque__"] = {"get_cpds": OpaqueFn("get_cpds", Opaque, pure=False), "remove_cpds": OpaqueFn("remove_cpds", Opaque, pure=False)}
+            ns = Coll(kind, Atom, z3.Const("nodes", set_sort(Atom)), nodup=True)
+            yield f"nodes={kind}", {"self": g, "nodes": ns}, {}
+
+    def pre(self, ex, st, args):
+        g = args["self"]
+        a = fresh("a", Atom)
+        return z3.And(wf_graph(g), z3.ForAll([a], z3.Implies(args["nodes"].mem[a], N_(g, a))))
+
+    def snapshot(self, ex, st, args):
+        return graph_snapshot(args["self"])
+
+    def havoc(self, ex, st, args):
+        havoc_graph(args["self"], "rnf")
+
+    def raises(self, ex, st, args):
+        return {}
+
+    def removed(self, g, old, gone):
+        a, b = fresh("a", Atom), fresh("b", Atom)
+        return [z3.ForAll([a], g.fields["@nodes"][a] == z3.And(old["@nodes"][a], z3.Not(gone[a]))),
+                z3.ForAll([a, b], g.fields["@E"][a, b] == z3.And(old["@E"][a, b], z3.Not(gone[a]), z3.Not(gone[b]))),
+                z3.ForAll([a], g.fields["latents"].mem[a] == z3.And(old["latents"][a], z3.Not(gone[a])))]
+
+    def post(self, ex, st, args, old, result):
+        g = args["self"]
+        n, e, l = self.removed(g, old, args["nodes"].mem)
+        return {"nodes": n, "edges": e, "latents": l, "wf": wf_graph(g)}
+
+    # loop 0: for node in nodes
+    def inv0(self, ex, st, args, old, ghost):
+        g = args["self"]
+        return z3.And(*self.removed(g, old, ghost["done"]), wf_graph(g))
+
+    invariants = property(lambda self: {0: self.inv0})
+
+
+register(BNRemoveNodesFrom())
+
+
 class MNAddEdge(Contract):
     file = "pgmpy/models/MarkovNetwork.py"
     qual = "MarkovNetwork.add_edge"
